@@ -12,6 +12,17 @@ run_impl under this shim, which (only at the outermost call level, never recursi
   * renders every statement first under foreign conventions (back-tick identifiers, double-quoted strings, AS keyword) and
     then once more under the very conventions that were asked for, before the rendering that is returned.
 
+For a case whose "_pre" key is 2 (a fixed share of the perturbed cases, VERIF_PURITY_CLONE_SHARE) the rendering that is
+returned is, in addition, the rendering of a *clone* of the statement (alternately copy.deepcopy and a pickle round
+trip).  A clone is structurally the object it was made from (sharing inside the statement is preserved by both
+mechanisms), and the model renders structure, so state that a clone shares with its origin or loses (a class-level or
+module-level container, a list that __deepcopy__/__reduce__/__getstate__ forgets, derived data cached on one object and
+read through another) shows up the same way.  When cloning itself raises (harness-local classes that cannot be pickled,
+very deep chains) the original object is rendered.  Receivers of builder calls are deliberately NOT replaced by clones:
+pypika writes the invented alias of a sub-query into the caller's object when it is joined (open C01 finding), and
+statements that selected a field of that sub-query before joining it rely on this sharing; a clone in between makes
+the unchanged code render "None"."a" (tried, three C04 alarms on the unchanged tree, removed as a false alarm of the shim).
+
 Nothing else changes: the outcome is compared with the same Coq model and judged by the same oracle as for any other
 case, so state that leaks from one rendering into the next, or from a rendered intermediate builder into the statements
 derived from it, shows up as a correspondence mismatch or an oracle violation whose replay (the case, with its "_pre"
@@ -19,6 +30,8 @@ key) reproduces it.  The shim lives in the harness process only; /repo is not to
 
 A plug-in opts out with PURITY_SHIM = False (for example when it counts get_sql calls with sentinel terms)."""
 import contextlib
+import copy as _copy_mod
+import pickle as _pickle
 
 # plug-ins whose own instrumentation observes the rendering calls themselves (the shim's extra renderings would be
 # counted / recorded as if the statement under test had made them); they carry their own re-render dimension instead
@@ -28,7 +41,23 @@ OPT_OUT = {
     "C20": "counts get_sql calls on sentinel elements (every element rendered once)",
 }
 
-_ST = {"on": False, "depth": 0, "patched": False, "pre": 0, "mid": 0}
+_ST = {"on": False, "depth": 0, "patched": False, "pre": 0, "mid": 0, "clone": False, "cloned": 0, "clone_failed": 0, "flip": 0}
+
+
+def _clone(obj):
+    """a structural clone of obj, or obj itself when it cannot be cloned"""
+    _ST["flip"] += 1
+    try:
+        c = _copy_mod.deepcopy(obj) if _ST["flip"] % 2 else _pickle.loads(_pickle.dumps(obj))
+        if type(c) is not type(obj):
+            raise TypeError("clone changed class")
+        _ST["cloned"] += 1
+        return c
+    except BaseException as e:   # noqa
+        if isinstance(e, (KeyboardInterrupt, SystemExit)):
+            raise
+        _ST["clone_failed"] += 1
+        return obj
 FOREIGN = dict(quote_char="`", secondary_quote_char='"', as_keyword=True)
 
 
@@ -63,7 +92,7 @@ def _wrap_get_sql(orig):
                     orig(self, *a, **kw)
                 except Exception:   # noqa
                     pass
-            return orig(self, *a, **kw)
+            return orig(_clone(self) if _ST["clone"] else self, *a, **kw)
         finally:
             _ST["depth"] -= 1
     get_sql.__wrapped_by_purity__ = True
@@ -103,17 +132,19 @@ def _patch():
 
 @contextlib.contextmanager
 def perturbed(on=True):
+    """on: falsy = no perturbation, 1 = extra renderings, 2 = extra renderings and clones"""
     if not on:
         yield
         return
     _patch()
-    prev = _ST["on"]
-    _ST["on"], _ST["depth"] = True, 0
+    prev = _ST["on"], _ST["clone"]
+    _ST["on"], _ST["depth"], _ST["clone"] = True, 0, (on == 2)
     try:
         yield
     finally:
-        _ST["on"] = prev
+        _ST["on"], _ST["clone"] = prev
 
 
 def counters():
-    return {"pre_renderings": _ST["pre"], "intermediate_renderings": _ST["mid"]}
+    return {"pre_renderings": _ST["pre"], "intermediate_renderings": _ST["mid"], "clones": _ST["cloned"],
+            "clones_not_possible": _ST["clone_failed"]}
